@@ -133,6 +133,9 @@ def judge(col, paths, cls, b, l, rm, info, variant):
     col.eval()
     nbd.hygiene()
     os.environ["PATH"] = paths[variant]
+    if variant == "full" and "git_styles" in paths:
+        from .. import env as _env
+        col.count("git_conflictstyle:" + _env.rotate_git_style(paths["git_styles"]))
     case = {"base": b, "local": l, "remote": rm, "class": cls, "info": info, "path_variant": variant, "config": DEFAULT}
     try:
         merged, dec = nbd.merge_notebooks(to_node(b), to_node(l), to_node(rm), merge_args(DEFAULT))
@@ -205,6 +208,7 @@ def run_shard(spec):
     col = Collector(ID)
     scratch = os.environ.get("VMON_SCRATCH", "/tmp")
     paths = env.make_path_variants(os.path.join(scratch, "paths-%s" % spec.get("shard", 0)))
+    paths["git_styles"] = env.git_style_variants(os.path.join(scratch, "paths-%s" % spec.get("shard", 0)))
     os.chdir(scratch)
     r = random.Random(spec["seed"])
     if "replay" in spec:
